@@ -1564,6 +1564,7 @@ def b_sample_cell(S):
         "choose_geometries(sindex=branches.sindex, sample_circle=sample_circle, geometries=branches)": CH.format(i="(bindex branches)", g="branches"),
         "choose_geometries(sindex=nodes.sindex, sample_circle=sample_circle, geometries=nodes)": CH.format(i="(nindex nodes)", g="nodes"),
         "len(trace_candidates) == 0": "(decide (List.length trace_candidates = 0))",
+        "resolve_samples(candidates=trace_candidates, sample_circle=sample_circle).shape[0] == 0": "(decide (List.length " + RS.format(c="trace_candidates") + " = 0))",
         "determine_topology_parameters(trace_length_array=np.array([]), node_counts=determine_node_type_counts(np.array([]), branches_defined=True), area=sample_circle_area, branch_length_array=np.array([]), branches_defined=True, correct_mauldon=resolve_branches_and_nodes)":
             "(topo [] (count_nodes []) sample_circle_area [] true resolve_branches_and_nodes)",
         "resolve_if_asked(resolve_branches_and_nodes, trace_candidates, sample_circle, branches, nodes)": "(if resolve_branches_and_nodes then ban trace_candidates sample_circle else .ok (branches, nodes))",
@@ -1588,7 +1589,7 @@ def b_sample_cell(S):
         "choose_geometries(sindex=traces_sindex, sample_circle=sample_circle, geometries=traces)": "List G", "trace_candidates": "List G",
         "choose_geometries(sindex=branches.sindex, sample_circle=sample_circle, geometries=branches)": "List G", "branch_candidates": "List G",
         "choose_geometries(sindex=nodes.sindex, sample_circle=sample_circle, geometries=nodes)": NODES, "node_candidates": NODES,
-        "len(trace_candidates) == 0": "Bool", "branches.shape[0] > 0": "Bool", "is_topology_defined": "Bool",
+        "len(trace_candidates) == 0": "Bool", "resolve_samples(candidates=trace_candidates, sample_circle=sample_circle).shape[0] == 0": "Bool", "branches.shape[0] > 0": "Bool", "is_topology_defined": "Bool",
         "determine_topology_parameters(trace_length_array=np.array([]), node_counts=determine_node_type_counts(np.array([]), branches_defined=True), area=sample_circle_area, branch_length_array=np.array([]), branches_defined=True, correct_mauldon=resolve_branches_and_nodes)": "R",
         "resolve_if_asked(resolve_branches_and_nodes, trace_candidates, sample_circle, branches, nodes)": "Except (List G × " + NODES + ")",
         "branches": "List G", "nodes": NODES,
